@@ -455,7 +455,10 @@ func (s *State) evalDelete(node ast.Node) object.Object {
 		}
 		return s.env.Delete(name)
 	case token.DOT:
-		idxE := node.(*ast.IndexExpression)
+		idxE, isIdx := node.(*ast.IndexExpression)
+		if !isIdx {
+			return s.NewError("delete not supported on " + node.Value().DebugString())
+		}
 		// index is the string value and not an identifier to resolve.
 		key := idxE.Index.Value()
 		if key.Type() != token.STRING && key.Type() != token.IDENT && key.Type() != token.REGISTER { // m.n with n in a register: still the key "n".
@@ -465,7 +468,10 @@ func (s *State) evalDelete(node ast.Node) object.Object {
 		return s.deleteMapEntry(idxE, index)
 	case token.LBRACKET:
 		// Map/array [] index
-		idxE := node.(*ast.IndexExpression)
+		idxE, isIdx := node.(*ast.IndexExpression)
+		if !isIdx { // e.g. del([1,2]): an array literal also has the [ token.
+			return s.NewError("delete not supported on " + node.Value().DebugString())
+		}
 		index := s.Eval(idxE.Index)
 		if index.Type() == object.ERROR {
 			return index
